@@ -676,6 +676,13 @@ def registry_unit(run, n):
 _SERIAL = {}
 
 
+def _safe_repr(x):
+    try:
+        return repr(x)[:80]
+    except Exception:       # noqa
+        return "<%s>" % type(x).__name__
+
+
 def cls_label(c):
     """stable, address-free identity of a class object within this process (keeps the class alive: no id reuse)"""
     e = _SERIAL.get(id(c))
@@ -686,7 +693,8 @@ def cls_label(c):
 
 def _cls_state(c):
     d = c.__dict__
-    out = [c.__name__, int(c.type_id) if isinstance(getattr(c, "type_id", None), int) else repr(getattr(c, "type_id", None))]
+    tid = getattr(c, "type_id", None)
+    out = [c.__name__, tid if type(tid) is int else "%s:%s" % (type(tid).__name__, _safe_repr(tid))]
     if is_enum_cls(c):
         out.append(sorted((repr(k), n) for k, n in c._value2name.items()))
         out.append(sorted((n, repr(k)) for n, k in c._name2value.items()))
@@ -700,18 +708,26 @@ def _cls_state(c):
     return out
 
 
+def _k(t):
+    """a table key / attribute value made safely comparable (a hostile stream may have put ANY object there, e.g. a
+    SerializableEnum member whose == raises against an int)"""
+    return t if type(t) in (int, str, tuple) or t is None else (type(t).__name__, id(t))
+
+
 def table_fingerprint(classes=True):
     """cheap part of process_state: the id <-> class tables, the counters, the sizes of every process-level container and
     (classes=True) each class's own type_id / field list / identity of its class-level defaults"""
     T = S.SerializableType
     if not classes:
-        return (tuple(T.registry.items()), tuple(T.names.items()), T.next_type_id, tuple(T.custom_id.items()),
-                tuple(S.SerializableEnumType._enums.items()), S.MAX_BYTES_LENGTH, S.MAX_ARRAY_LENGTH, tuple(_container_sizes()))
-    return (tuple((t, id(c)) for t, c in T.registry.items()),
-            tuple((n, id(c)) for n, c in T.names.items()),
-            T.next_type_id, tuple(T.custom_id.items()),
-            tuple((n, id(c)) for n, c in S.SerializableEnumType._enums.items()),
-            tuple((getattr(c, "type_id", None), getattr(c, "_fields", None),
+        return (tuple((_k(t), id(c)) for t, c in T.registry.items()), tuple((_k(n), id(c)) for n, c in T.names.items()),
+                _k(T.next_type_id), tuple((_k(a), _k(b)) for a, b in T.custom_id.items()),
+                tuple((_k(n), id(c)) for n, c in S.SerializableEnumType._enums.items()),
+                _k(S.MAX_BYTES_LENGTH), _k(S.MAX_ARRAY_LENGTH), tuple(_container_sizes()))
+    return (tuple((_k(t), id(c)) for t, c in T.registry.items()),
+            tuple((_k(n), id(c)) for n, c in T.names.items()),
+            _k(T.next_type_id), tuple((_k(a), _k(b)) for a, b in T.custom_id.items()),
+            tuple((_k(n), id(c)) for n, c in S.SerializableEnumType._enums.items()),
+            tuple((_k(getattr(c, "type_id", None)), _k(getattr(c, "_fields", None)),
                    tuple(id(c.__dict__.get(f)) for f in getattr(c, "_fields", None) or ())) for c in T.registry.values()),
             S.MAX_BYTES_LENGTH, S.MAX_ARRAY_LENGTH, tuple(_container_sizes()))
 
@@ -741,10 +757,10 @@ def process_state():
     """{component: comparable value} of everything process-wide the serializer reads"""
     T = S.SerializableType
     st = {
-        "SerializableType.registry": [(repr(t), cls_label(c)) for t, c in T.registry.items()],
+        "SerializableType.registry": [(_safe_repr(t), cls_label(c)) for t, c in T.registry.items()],
         "SerializableType.names": [(n, cls_label(c)) for n, c in T.names.items()],
-        "SerializableType.next_type_id": T.next_type_id,
-        "SerializableType.custom_id": sorted(T.custom_id.items()),
+        "SerializableType.next_type_id": _safe_repr(T.next_type_id),
+        "SerializableType.custom_id": sorted((_safe_repr(a), _safe_repr(b)) for a, b in T.custom_id.items()),
         "SerializableEnumType._enums": [(n, cls_label(c)) for n, c in S.SerializableEnumType._enums.items()],
         "serialize_types": [(t.__name__, cls_label(f)) for t, f in S.serialize_types.items()],
         "deserialize_types": [(t, cls_label(f)) for t, f in S.deserialize_types.items()],
@@ -805,14 +821,14 @@ class StateGuard:
         T = S.SerializableType
         T.registry, T.names, T.custom_id, S.SerializableEnumType._enums, S.serialize_types, S.deserialize_types = self.objs
         for o, c in zip(self.objs, self.copies):
-            if list(o.items()) != list(c.items()):
+            if [(_k(a), id(b)) for a, b in o.items()] != [(_k(a), id(b)) for a, b in c.items()]:
                 o.clear()
                 o.update(c)
         T.next_type_id, S.MAX_BYTES_LENGTH, S.MAX_ARRAY_LENGTH = self.scalars
         for c, tid, flds in self.cls:
-            if tid is not None and c.__dict__.get("type_id") != tid:
+            if tid is not None and c.__dict__.get("type_id") is not tid:
                 c.type_id = tid
-            if flds is not None and c.__dict__.get("_fields") != flds:
+            if flds is not None and c.__dict__.get("_fields") is not flds:
                 c._fields = flds
 
     def __exit__(self, *a):
